@@ -6,7 +6,7 @@ from gen.rollcommon import model_lines, compare, classify, describe, extra_cover
 RULE = ("random histories of up to 30 ops on the real RollingFileAppender: trigger in {SizeTrigger(limit around the "
         "record sizes, 0, 1024+-1), OnStartUpTrigger(min 0..6), scripted user Trigger pre-/post-processing whose i-th "
         "consultation fires iff threshold_i <= len (always / never / size-dependent)} x roller in {DeleteRoller, "
-        "FixedWindowRoller base in {0,1,7}, count in 0..4, plain and .gz}; ops: append (tagged records, multi-byte "
+        "FixedWindowRoller base in {0,1,7}, count in 0..4, plain, .gz and .zst}; ops: append (tagged records, multi-byte "
         "UTF-8 filler, 0-3 encoder chunks split at arbitrary bytes, sizes 0..12 and in ~8% of the cases around the "
         "1 KiB buffer: 1023/1024/1025/2100), restart (append mode; truncate mode in ~10% of the cases, then only the "
         "model comparison applies), burst of 2-4 threads x 1-4 tagged records; in an eighth of the histories a third of "
@@ -209,7 +209,7 @@ def gen_trigger(rng, big):
 def gen_roller(rng):
     if rng.chance(1, 5):
         return [0]
-    return [1, rng.choice([0, 1, 7]), rng.choice([0, 1, 1, 2, 2, 3, 4]), rng.below(2), rng.choice([0, 0, 0, 1, 1, 2, 3, 3]), 0]
+    return [1, rng.choice([0, 1, 7]), rng.choice([0, 1, 1, 2, 2, 3, 4]), rng.choice([0, 0, 0, 1, 1, 2]), rng.choice([0, 0, 0, 1, 1, 2, 3, 3]), 0]
 
 
 def cases(rng, tier):
